@@ -14,6 +14,7 @@ LANG = param("lang", "C")
 LABEL = param("label", "two")
 OP = param("op", "delete")
 TOLERATE = param("tolerate", [])
+ORDER = param("order", False)
 
 import importlib.util  # noqa
 import os  # noqa
@@ -100,6 +101,8 @@ def h_mut(p: int, k: int) -> bool:
 def _concrete(pp, kk):
     """position and class are concrete here (selected by explicit branching): run the real scan_file untraced."""
     toks = mutate(pp, kk)
+    if ORDER:
+        return _order_independent(toks)
     try:
         ms = scan_file(toks, LANGUAGE)
     except ValueError as e:
@@ -107,6 +110,43 @@ def _concrete(pp, kk):
             return [], 0          # the listed known finding (arrow-pattern ambiguity): assumed away so the other positions are still explored
         raise
     return soup.wellformed(ms, toks), len(ms)
+
+
+def _outcome(toks):
+    try:
+        ms = scan_file([Token(Location(t.location.line, t.location.column), t.token_type, t.value) for t in toks], LANGUAGE)
+        return [(m.unit_name, m.start.line, m.start.column, m.end.line, m.end.column, m.value) for m in ms]
+    except Exception as e:
+        return "raises " + type(e).__name__
+
+
+def _order_independent(toks):
+    """S-hash at scan_file level: the hash seed only changes the iteration order of sets in the automaton construction, i.e. the order of every
+    DFA state's transition list. The outcome (measurements, or the kind of error) must be the same for the identity and the reversed / rotated order."""
+    import codelimit.common.gsm.matcher as matcher
+    base = _outcome(toks)
+    real = matcher.nfa_to_dfa
+    bad = []
+    for how in ("reversed", "rotated"):
+        def permuted(nfa, _how=how):
+            dfa = real(nfa)
+            seen, stack = set(), [dfa.start]
+            while stack:
+                st = stack.pop()
+                if id(st) in seen:
+                    continue
+                seen.add(id(st))
+                st.transition = list(reversed(st.transition)) if _how == "reversed" else st.transition[1:] + st.transition[:1]
+                stack.extend(t for _, t in st.transition)
+            return dfa
+        matcher.nfa_to_dfa = permuted
+        try:
+            other = _outcome(toks)
+        finally:
+            matcher.nfa_to_dfa = real
+        if other != base:
+            bad.append(f"outcome-depends-on-transition-order({how}): {base} vs {other}")
+    return bad, 1
 
 
 def real_h_mut(p, k):
@@ -123,6 +163,11 @@ def real_h_mut(p, k):
     text = "\n".join(lines.get(i, "") for i in range(1, maxl + 1)) + "\n"
     rt = lex(get_lexer_by_name(capture.LEXER_FOR[LANG]), text, False)
     what = f"{OP} at token {p}" + (f" by {ALPHA[k][1]!r}" if OP == "replace" else "")
+    if ORDER:
+        bad, _n = _order_independent(filter_tokens(rt))
+        if bad:
+            return {"reproduced": True, "sig": f"hash-seed:{LANG}:{OP}", "detail": f"{bad[0]} [{LABEL}: {what}] on text {text!r}"}
+        return {"reproduced": False, "contract_only": True, "detail": f"order dependence [{LABEL}: {what}] not reproduced through the real lexer on {text!r}"}
     try:
         ms = scan_file(rt, LANGUAGE)
     except Exception as e:
